@@ -30,7 +30,12 @@ def verify_unit(name, vacuity=False, seed=None, rlimit=None, suffix=""):
     with open(path, "w") as f:
         f.write(text)
     an = vxlib.Analysis(text)
-    vres = vxlib.run_verus(path, rlimit=rlimit or getattr(m, "RLIMIT", None), seed=seed, log_air=not vacuity)
+    extra = []
+    if vacuity and unit.modules:
+        for mod in unit.modules:
+            extra += ["--verify-module", mod]
+    vres = vxlib.run_verus(path, extra=extra, rlimit=rlimit or getattr(m, "RLIMIT", None), seed=seed, log_air=not vacuity,
+                            multiple_errors=(6 if vacuity else 40))
     r = UnitRun()
     r.name = name
     r.module = m
